@@ -570,30 +570,59 @@ def rule_rhs_every_path(ctx):
     if not any(f["name"] == "rhs" for f in c["fields"]):
         raise AnalysisBroken("R-LIN: LocalLinearization::rhs not found")
     n = 0
-    handlers = [f for f in fx.methods_of(cls) if f.body is not None and len(f.params) == 1
-                and "GNU_gama::local::" in f.params[0]["t"] and f.name != "visit"
-                and not f.rec.get("ctor")]
-    for fn in sorted(handlers, key=lambda f: f.name):
-        assigns = [x for x in fn.walk() if x.get("k") in ("BinaryOperator", "CompoundAssignOperator")
-                   and x.get("op") == "=" and F.is_this_field(x["c"][0], "rhs")]
-        if not assigns:
-            continue
-        ctx.saw(fn)
+    methods = {f.key: f for f in fx.methods_of(cls) if f.body is not None}
+
+    def this_calls(fn):
+        out = []
+        for x in fn.walk():
+            if x.get("k") == "CXXMemberCallExpr":
+                obj = F.call_object(x)
+                if obj is not None and obj.get("k") == "CXXThisExpr":
+                    callee = fx.functions.get(x.get("calleeKey") or "")
+                    if callee is not None and callee.key in methods:
+                        out.append((x, callee))
+        return out
+
+    summary = {}
+
+    def must_write(fn, stack=()):
+        """every normal path through fn assigns rhs, directly or through a member called on this"""
+        if fn.key in summary:
+            return summary[fn.key]
+        if fn.key in stack:
+            return False
+        writes = [x for x in fn.walk() if x.get("k") in ("BinaryOperator", "CompoundAssignOperator")
+                  and x.get("op") == "=" and F.is_this_field(x["c"][0], "rhs")]
+        writes += [x for x, callee in this_calls(fn) if must_write(callee, stack + (fn.key,))]
         cfg = fn.cfg
         avoid = set()
-        for a in assigns:
+        for a in writes:
             pb = cfg.block_of(a)
             if pb is not None:
                 avoid.add(pb[0])
         for bid, blk in cfg.blocks.items():      # throwing paths are not normal exits
             if any(isinstance(e, int) and fn.nodes.get(e, {}).get("k") == "CXXThrowExpr" for e in blk.get("el", [])):
                 avoid.add(bid)
-        ok = not cfg.paths_avoiding(cfg.entry, avoid, {cfg.exit})
+        r = bool(writes) and not cfg.paths_avoiding(cfg.entry, avoid, {cfg.exit})
+        summary[fn.key] = r
+        return r
+
+    visits = [f for f in methods.values() if f.name == "visit" and len(f.params) == 1]
+    for v in sorted(visits, key=lambda f: f.params[0]["t"]):
+        ctx.saw(v)
+        calls = this_calls(v)
+        for _, h in calls:
+            ctx.saw(h)
+        ok = must_write(v)
+        # the instance is named after the handler the visitor forwards to, when there is exactly one
+        names = sorted({h.name for _, h in calls})
+        name = names[0] if len(names) == 1 else "visit(%s)" % short(v.params[0]["t"])
+        target = calls[0][1] if len(names) == 1 else v
         n += 1
-        ctx.report("R-LIN", "LocalLinearization::%s:rhs-on-every-path" % fn.name, ok, fn.where(), fn.short,
+        ctx.report("R-LIN", "LocalLinearization::%s:rhs-on-every-path" % name, ok, target.where(), target.short,
                    "" if ok else "a path through %s returns without assigning rhs: the observation gets the "
-                   "right-hand side left over from the previous one" % fn.name)
-    ctx.floor("R-LIN", 13, n, "handlers assigning rhs")
+                   "right-hand side left over from the previous one" % name)
+    ctx.floor("R-LIN", 13, n, "visit overloads of LocalLinearization (one per observation type)")
 
 
 def _pdom_entry(cfg, node):
